@@ -223,6 +223,39 @@ def memo_code_rule(ctx: Ctx, rule: str) -> None:
                     f'deformation') if r else '', key=f'{f.qual}|memo-code[{p_.arg}]')
 
 
+_IO_CALLS = {'open', 'gzip.open', 'json.load', 'json.loads', 'pickle.load', 'np.load', 'numpy.load', 'np.loadtxt',
+             'pd.read_csv', 'pd.read_json', 'os.listdir', 'os.scandir', 'glob', 'glob.glob', 'os.path.exists',
+             'os.path.isfile', 'os.path.getmtime', 'os.stat', 'zipfile.ZipFile', 'ZipFile', 'bz2.open', 'lzma.open',
+             'os.getenv', 'os.environ.get'}
+
+
+def memo_io_rule(ctx: Ctx, rule: str, floor_positive: bool = True) -> None:
+    """A memoised function must not read the file system / environment: the entry outlives what it read, so a file
+    rewritten since (every checkpoint rewrites the results file) is not read again."""
+    m = ctx.model
+    E = effects(m)
+    cached = [f for f in E.funcs.values() if f.is_cached]
+    for f in sorted(cached, key=lambda f: f.qual):
+        hit = None
+        for g in sorted(E.reachable([f]), key=lambda g: g.qual):
+            for n in ast.walk(g.fn):
+                if isinstance(n, ast.Call):
+                    try:
+                        d = ast.unparse(n.func)
+                    except Exception:
+                        continue
+                    if d in _IO_CALLS or d.split('.')[-1] in ('read_text', 'read_bytes'):
+                        hit = (g, n, d)
+                        break
+            if hit:
+                break
+        ctx.ob(rule, f.site if not hit else f'{hit[0].mi.relpath}:{hit[1].lineno}',
+               f'{f.qual}: memoised function does not read files or the environment', hit is None,
+               (f'{hit[2]}(...) in {hit[0].qual} is reached from the memoised {f.qual}: the first result is returned for '
+                f'every later call with the same arguments, whatever has been written to the file since') if hit else '',
+               key=f'{f.qual}|memo-io')
+
+
 def class_mutable_rule(ctx: Ctx, rule: str, class_names) -> None:
     """A mutable container defined at class level is shared by all instances: a method may mutate it in place only
     if every constructor rebinds it on the instance first."""
